@@ -631,7 +631,7 @@ func (f Slice) Walk(rest, path Expr, nodes []any, cb func(path Expr, nodes []any
 		max = tn.Size()
 	default:
 		rv := reflect.ValueOf(tn)
-		if rv.Kind() == reflect.Slice {
+		if rv.Kind() == reflect.Slice || rv.Kind() == reflect.Array {
 			max = rv.Len()
 		}
 	}
